@@ -253,11 +253,18 @@ def replace_rule(v, p, bad, cls, want_flag, exclude, fallbacks):
     for e in p.events[:i]:
         if e["ev"] == "store" and e["loc"][0] == "H" and e["loc"][1] == SELF and e["loc"][2] == ("p",):
             cur_p = e["val"]
+    p_stores = [(j, e["val"]) for j, e in enumerate(p.events) if e["ev"] == "store" and e["loc"][0] == "H" and e["loc"][1] == SELF and e["loc"][2] == ("p",)]
     for c, t, e in facts:
         r = norm_cmp(c, t, lambda x: isinstance(x, tuple) and x[0] == "len" and x[1] == ("H", SELF, T1 + ("map",)))
         if not r:
             continue
         op, l, rhs = r
+        if is_p_term(rhs) and p_stores:
+            # the target the victim choice reads must be the adapted one: ARC adapts p, then replaces
+            at = p.events.index(e)
+            if any(j > at for j, _ in p_stores):
+                bad("C09.R2", cls + "-p-adapted-late", "the victim is chosen by comparing recent.len() with p before p is adapted on this path: the choice uses the previous target", e.get("ln"))
+                return
         if rhs == ("const", "usize", "0"):
             if op in ("Gt", "Ne"):
                 A = True
